@@ -54,6 +54,8 @@ DEFAULT_PROFILE = dict(
     p_two_clients=0.0,
     discipline=False,
     center=(60, 140),
+    p_cross=0.0,          # a callback for one market sends its requests to another market of the run
+    shared_file=False,    # the markets come in one recorded file (every message re-delivers the last book of each)
 )
 
 
@@ -263,9 +265,16 @@ class Gen:
                     if not self.chance(p["p_action"] if phase == "book" else p["p_action"] / 3):
                         continue
                     acts = []
+                    # a hedge on another market of the event / file: the requests of this callback go to market `ti`
+                    ti, tm, tu = mi, m, u
+                    if p["p_cross"] and len(markets) > 1 and self.chance(p["p_cross"]):
+                        ti = rnd.choice([j for j in range(len(markets)) if j != mi])
+                        tm = markets[ti]
+                        before = [x for x in tm["updates"] if x["pt"] <= u["pt"] and x["status"] != "CLOSED"]
+                        tu = before[-1] if before else tm["updates"][0]
                     for _ in range(rnd.choice([1, 1, 1, 2, 3])):
                         x = rnd.random()
-                        mine = [l for l in labels if l[1] == mi]
+                        mine = [l for l in labels if l[1] == ti]
                         if mine and x < p["p_cancel"]:
                             a = {"op": "cancel", "o": rnd.choice(mine)[0]}
                             if self.chance(p["p_partial_cancel"]):
@@ -280,7 +289,7 @@ class Gen:
                                 a["mv"] = rnd.choice(["cur", "stale"])
                             # later actions may address the replacement
                             if self.chance(0.6):
-                                labels.append((lab[0] + ".r1", mi, LADDER[ni] / 100.0))
+                                labels.append((lab[0] + ".r1", ti, LADDER[ni] / 100.0))
                         elif mine and x < p["p_cancel"] + p["p_replace"] + p["p_update"]:
                             a = {"op": "update", "o": rnd.choice(mine)[0], "pers": rnd.choice(["PERSIST", "LAPSE", "MARKET_ON_CLOSE"])}
                         elif mine and x < p["p_cancel"] + p["p_replace"] + p["p_update"] + p["p_replace_dup"]:
@@ -291,21 +300,23 @@ class Gen:
                                 continue
                             n += 1
                             lab = "%so%d" % (name.lower(), n)
-                            a = self.order_action(lab, m, u, name)
+                            a = self.order_action(lab, tm, tu, name)
                             if trades and self.chance(p["p_multi_trade"]):
-                                cand = [t for t in trades if t[1] == mi and t[2] == a["sel"]]
+                                cand = [t for t in trades if t[1] == ti and t[2] == a["sel"]]
                                 if cand:
                                     a["t"] = rnd.choice(cand)[0]
                             if "t" not in a:
                                 a["t"] = "t_" + lab
-                                trades.append((a["t"], mi, a["sel"]))
-                            labels.append((lab, mi, a["price"]))
+                                trades.append((a["t"], ti, a["sel"]))
+                            labels.append((lab, ti, a["price"]))
                         if a["op"] != "place" and self.chance(p["p_force"]):
                             a["force"] = True
+                        if ti != mi:
+                            a["on"] = tm["id"]
                         acts.append(a)
                     if not acts:
                         continue
-                    if self.chance(p["p_txn"]):
+                    if ti == mi and self.chance(p["p_txn"]):       # (a transaction belongs to one market)
                         inner = []
                         for a in acts:
                             inner.append(a)
@@ -366,6 +377,10 @@ class Gen:
         for m in markets:
             m.pop("_centers", None)
         scn = {"id": sid, "cfg": cfg, "markets": markets, "strategies": strategies}
+        if p["shared_file"]:
+            scn["shared_file"] = True
+            for s in strategies:
+                s["markets"] = [0]
         if self.chance(p["p_two_clients"]):
             scn["clients"] = [{"name": "c1", "transaction_limit": rnd.choice([None, 0, 1, 2, 3, 5])}, {"name": "c2", "transaction_limit": rnd.choice([None, 1, 3])}]
             for s in strategies:   # part of the placements goes through the second client
